@@ -506,6 +506,10 @@ def gen_random(rng, ic, kinds, maxreact):
             continue
         if not any(l[0] in 'VI' for l in c['lines']) and not ic:
             continue
+        # two voltage-defined branches across the same node pair make the system singular: not a circuit
+        vpairs = [frozenset(l.split()[1:3]) for l in c['lines'] if l[0] in 'VEH']
+        if len(vpairs) != len(set(vpairs)):
+            continue
         has_ic = any(l[0] in 'CL' and len(l.split()) == 5 for l in c['lines'])
         return {'template': 'random-%d-reactive' % nre, 'lines': c['lines'], 'lcapy': c['lcapy'], 'has_ic': has_ic,
                 'waves': sorted(set(g.waves)), 'poles': 'unknown', 'subs': {k: fstr(v) for k, v in c['subs'].items()}}
@@ -672,6 +676,8 @@ def run(chk, replay=None):
                     chk.count('reported-skipped', 'I %s:%s' % (ty, ex.args[0]))
                 except Exception as ex:   # noqa
                     chk.count('reported-skipped', 'I %s:%s' % (ty, type(ex).__name__))
+                    if ty not in ('G', 'F') and len(chk.coverage.setdefault('reported_skipped_samples', [])) < 6:
+                        chk.coverage['reported_skipped_samples'].append('%s.i raised %s: %s | %s' % (nm, type(ex).__name__, str(ex)[:120], '; '.join(case['lcapy'])))
             try:
                 rep['U %s' % nm] = conv('U %s' % nm, el.v)
             except Skip as ex:
